@@ -337,6 +337,19 @@ def gen_meta(rng):
         data = mutate_bytes(rng, data); tag += "+byte mutation"
     elif d2 == 3:
         data = benc([doc]) if rng.chance(1, 2) else benc(doc[1][0][1]); tag += "+root not the document"
+    elif d2 == 4 and multi and kw.get("files"):
+        # something that is not a file dictionary among the entries of `files` (a list of file dictionaries is required)
+        stray = rng.choice([b"junk", 7, [b"x"], []])
+        def inject(v):
+            if isinstance(v, tuple) and v[0] == 'd':
+                out = []
+                for k, x in v[1]:
+                    if k == b"files" and isinstance(x, list):
+                        x = list(x); x.insert(rng.below(len(x) + 1), stray)
+                    out.append((k, inject(x)))
+                return ('d', out)
+            return v
+        data = benc(inject(doc)); tag += "+stray entry in files"
     return data, tag
 
 def layout_doc(L, files, single=False):
@@ -429,3 +442,33 @@ def noncanonical_variants(rng, doc):
     out.append((ws + doc, "noncanonical: leading white space"))
     out.append((ws + doc + ws, "noncanonical: white space around"))
     return out
+
+
+def prefix_key_dicts(rng, count):
+    """dictionaries whose adjacent keys are related by PREFIX: in order (canonical) and swapped (must be refused), the empty
+    key included — a comparison that only looks at the common prefix cannot tell them apart"""
+    out = []
+    for _ in range(count):
+        k = gen_bytes(rng, 3) or b"a"
+        ext = k + (gen_bytes(rng, 2) or b"\x00")
+        if rng.chance(1, 4):
+            k = b""
+        v1, v2 = gen_value(rng, 1), gen_value(rng, 1)
+        good = b"d" + benc(k) + benc(v1) + benc(ext) + benc(v2) + b"e"
+        bad = b"d" + benc(ext) + benc(v2) + benc(k) + benc(v1) + b"e"
+        out.append((good, "prefix keys in order")); out.append((bad, "prefix keys swapped"))
+        out.append((b"l" + bad + b"e", "prefix keys swapped, nested"))
+    return out
+
+def info_of_exact_length(target, piece_length=4, length=3):
+    """a valid single-file document whose encoded info dictionary is exactly `target` bytes long (an uninterpreted key
+    `x-note` takes up the slack)"""
+    for pad in range(max(0, target - 400), target):
+        doc = meta_doc(name=b"t", piece_length=piece_length, length=length, extra_info=[(b"x-note", b"n" * pad)])
+        infod = [v for k, v in doc[1] if k == b"info"][0]
+        n = len(benc(infod))
+        if n == target:
+            return benc(doc)
+        if n > target:
+            break
+    return None
